@@ -72,6 +72,6 @@ EndCoversPut == oq.end >= oq.p \/ act.op = "setFileSize"
 Proj == [abort |-> oq.abort, q |-> oq.q, g |-> oq.g, p |-> oq.p,
          end |-> oq.end, cap |-> oq.cap, good |-> OQGood(oq), eof |-> OQEof(oq),
          ret |-> ret]
-EdgeLog == PrintT(ToJson([s |-> Proj, a |-> act', t |-> Proj']))
-InitLog == TLCGet("level") = 1 => PrintT(ToJson([init |-> Proj, a |-> act]))
+EdgeLog == PrintT(ToJson([s |-> View, a |-> act', t |-> View', pt |-> Proj']))
+InitLog == TLCGet("level") = 1 => PrintT(ToJson([init |-> View, a |-> act, pt |-> Proj]))
 =============================================================================
